@@ -135,7 +135,7 @@ theorem recv_v2_success_iff (f : RecvV2) :
     recvV2 H f = .ok ↔
       UnexpiredFromCounterpartyV2 f ∧ f.receipt = false ∧ ClientReady f.env f.client f.proof 0 0 ∧
       f.proof.proves f.key (commitV2 H f.pkt.committed) = true := by
-  simp only [recvV2, check_ok, need_ok, Bool.not_eq_true', decide_eq_true_eq, UnexpiredFromCounterpartyV2]
+  simp only [recvV2, check_ok, need_ok, pass_ok, Bool.not_eq_true', decide_eq_true_eq, UnexpiredFromCounterpartyV2]
   constructor
   · rintro ⟨h1, h2, h3, h4, h5, cp, hcp, h6, h7, h8⟩
     cases hr : f.receipt
